@@ -141,7 +141,7 @@ def step (t : List String) : Option String :=
               | none => some "abort"
               | some b =>
                 let a := join (b.leaves.map (showAppLeaf s))
-                if op == "sret" then some s!"ok app={a}" else some s!"ok app={a} const={a}"
+                if op == "sret" then some s!"ok app={a}" else some s!"ok app={a} const={a} raw={a}"
           | _ => some "badinput"
       | _ => some "badinput"
   | _ => none
